@@ -749,6 +749,7 @@ Proof.
     eapply keeps_bind; [apply good_closed | apply call_params_ok; exact Hparams |].
     intros cd'. apply (keeps_pure' (good ps G L) _ (params_post cd params cd' [])); [intros s Hs; exact Hs|].
     intros Hpost. destruct (Hpost Hne) as (Hne' & Hkeep & Hkeys).
+    kb u0; [kmod|].   (* evalCall marks the call node again before the callee runs (repair 58a9bd4) *)
     eapply keeps_enter; [|apply Hw; apply Hreg; eapply find_template_In; exact Hfind].
     apply good_enter; [exact Hne'|]. intros k Hk. rewrite forallb_forall in Htot. specialize (Htot k Hk).
     apply orb_true_iff in Htot as [Hex|Hall'].
